@@ -198,6 +198,17 @@ func binop(fr *frame, op token.Token, t types.Type, x, y value) value {
 	sx, okx := x.(sym)
 	sy, oky := y.(sym)
 	if !okx && !oky {
+		if xs, isStr := x.(string); isStr && op != token.ADD {
+			ys := y.(string)
+			if hasOpaque(xs) || hasOpaque(ys) {
+				// a JSON document with symbolic leaves is never the empty string
+				if (op == token.EQL || op == token.NEQ) && (xs == "" || ys == "") &&
+					(strings.HasPrefix(xs, jsonTokenPrefix) || strings.HasPrefix(ys, jsonTokenPrefix)) {
+					return op == token.NEQ
+				}
+				fr.unmodelled("comparison of a string whose text was not computed exactly")
+			}
+		}
 		switch op {
 		case token.EQL:
 			return eqnil(fr, t, x, y)
@@ -646,7 +657,7 @@ func lookup(fr *frame, instr *ssa.Lookup, x, idx value) value {
 func rangeIter(fr *frame, x value, t types.Type) iter {
 	switch x := x.(type) {
 	case *omap:
-		return &mapIter{m: x}
+		return newMapIter(fr, x)
 	case string:
 		return &stringIter{Reader: strings.NewReader(x)}
 	case sym:
